@@ -2489,8 +2489,9 @@ func RunC08(ctx *core.Ctx) {
 		fmt.Fprintf(os.Stderr, "c08: fixed part done %v\n", time.Since(c08T0))
 	}
 	// 2. random files x views x histories
-	// thorough = 9x the random part of quick (the random part of quick is ~35 s wall on a busy box)
-	filesPerType := ctx.Scale(6, 36)
+	// thorough = ~7x the random part of quick (29 files per type since round 4: 21 kinds instead of 17;
+	// CPU time of thorough is ~10 min in total, i.e. about 1-2 min wall on 16 idle cores, 19 min at load 230)
+	filesPerType := ctx.Scale(6, 29)
 	histsPerView := ctx.Scale(2, 3)
 	var wg sync.WaitGroup
 	sem := make(chan struct{}, 16)
